@@ -45,6 +45,14 @@ def advance : Nat → Model.IEnv → Option Model.IEnv
     | .ok e' => advance n e'
     | .error _ => none
 
+/-- as `advance`, but a step that fails (or a finished session) ends the prefix where it stands: a failed step leaves the
+    session as it was -/
+def advanceLenient : Nat → Model.IEnv → Model.IEnv
+  | 0, e => e
+  | n + 1, e => match Model.instStep baseCtx baseTap e with
+    | .ok e' => advanceLenient n e'
+    | .error _ => e
+
 def cmdSession (spec : Bool) (verbose : Bool) (a : List String) : String :=
   match parseSession a with
   | none => "bad-op"
